@@ -547,6 +547,10 @@ func (e *Engine) symbolic(s *State, name string, t types.Type) Val {
 		e.assume(s, app(">=", "Bool", r, refT(0)))
 		e.assume(s, implies(refPos(r), sel(s.alloc, r, "Bool")))
 		return MapV{Ref: r, K: u.Key(), V: u.Elem()}
+	case *types.Signature: // a function value of unknown identity (possibly nil is not modelled: calling it is recorded)
+		return FuncV{Unknown: name, Sig: u}
+	case *types.Chan:
+		return e.declare(s, name, "Ref")
 	}
 	panic(fmt.Sprintf("symbolic: unsupported type %s", t))
 }
